@@ -19,8 +19,8 @@ STUBS = ["operation codes are symbolic integers concretised by forking (every hi
          "numeric arguments are fixed valid values so that refusals are caused by the mode alone",
          "Waveform.modulation_buffers replaced by the constant (rise_time//2, rise_time//2): only timing values depend on it"]
 FLOAT_MODE = "no symbolic floats"
-BOUNDS = {"quick": dict(history_length=3, devices=["virt (physical-like, EOM, DMM, SLM)", "MockDevice (reusable, XY)"], alphabet=27),
-          "thorough": dict(history_length=4, devices=["virt", "MockDevice", "DigitalAnalogDevice"], alphabet=27)}
+BOUNDS = {"quick": dict(history_length=3, devices=["virt (physical-like, EOM, DMM, SLM)", "MockDevice (reusable, XY)"], alphabet=28),
+          "thorough": dict(history_length=4, devices=["virt", "MockDevice", "DigitalAnalogDevice"], alphabet=28)}
 OUTSIDE = ["numeric refusals", "delay/enable_eom on a local channel without target (unspecified)",
            "SLM/DMM interplay beyond the asserted cases (unspecified)", "parametrized-mode acceptance other than inspection/measure/EOM gating/name reuse"]
 
@@ -42,7 +42,7 @@ DEV = {
 
 OPS = ["D_g", "D_g2", "D_gname", "D_l", "D_mw", "DMAP", "SLM", "ADD_g", "ADD_l", "ADD_mw", "TGT_l", "DLY_g",
        "EOM_on", "EOM_p", "EOM_off", "MEAS", "MEAS_xy", "VAR", "INSPECT", "ALIGN", "SHIFT", "ADD_g2", "DMAP2", "D_l2", "VAR_EOM",
-       "EOM_on2", "EOM_off2"]
+       "EOM_on2", "EOM_off2", "D_l_init"]
 
 
 class Model:
@@ -105,6 +105,8 @@ class Model:
             return declare("l", d["loc"], "loc")
         if op == "D_l2":
             return declare("l2", d["loc"], "loc")
+        if op == "D_l_init":
+            return declare("l", d["loc"], "loc")
         if op == "D_mw":
             return declare("mw", d["mw"], "mw")
         if op in ("DMAP", "DMAP2"):
@@ -216,6 +218,9 @@ class Model:
             declare("l", d["loc"], "loc")
         elif op == "D_l2":
             declare("l2", d["loc"], "loc")
+        elif op == "D_l_init":
+            declare("l", d["loc"], "loc")
+            self.names["l"]["target"] = True
         elif op == "D_mw":
             declare("mw", d["mw"], "mw")
         elif op in ("DMAP", "DMAP2"):
@@ -253,6 +258,7 @@ def do_op(seq, op, dev, st):
     from pulser.pulse import Pulse
 
     d = DEV[dev]
+    qs = list(seq.register.qubit_ids)
     p16 = Pulse.ConstantPulse(16, 1.0, 0.0, 0.0)
     if op == "D_g":
         seq.declare_channel("g", d["glob"])
@@ -264,13 +270,15 @@ def do_op(seq, op, dev, st):
         seq.declare_channel("l", d["loc"])
     elif op == "D_l2":
         seq.declare_channel("l2", d["loc"])
+    elif op == "D_l_init":
+        seq.declare_channel("l", d["loc"], initial_target=qs[0])
     elif op == "D_mw":
         seq.declare_channel("mw", d["mw"] or "mw_global")
     elif op in ("DMAP", "DMAP2"):
-        dm = seq.register.define_detuning_map({"q0": 1.0, "q1": 0.5})
+        dm = seq.register.define_detuning_map({qs[0]: 1.0, qs[1]: 0.5})
         seq.config_detuning_map(dm, "dmm_0")
     elif op == "SLM":
-        seq.config_slm_mask(["q0"])
+        seq.config_slm_mask([qs[0]])
     elif op == "ADD_g":
         seq.add(p16, "g")
     elif op == "ADD_g2":
@@ -280,7 +288,7 @@ def do_op(seq, op, dev, st):
     elif op == "ADD_mw":
         seq.add(p16, "mw")
     elif op == "TGT_l":
-        seq.target("q0", "l")
+        seq.target(qs[0], "l")
     elif op == "DLY_g":
         seq.delay(16, "g")
     elif op == "EOM_on":
@@ -310,7 +318,7 @@ def do_op(seq, op, dev, st):
     elif op == "ALIGN":
         seq.align("g", "l")
     elif op == "SHIFT":
-        seq.phase_shift(0.5, "q0", "q1", "q2", basis="ground-rydberg")
+        seq.phase_shift(0.5, *qs, basis="ground-rydberg")
     else:
         raise ValueError(op)
 
@@ -322,7 +330,7 @@ def h_history(shape):
 
     def h(inp):
         stubs.bind(inp, fixed=True)  # timing is irrelevant for the typestate: constant fall times keep timelines concrete
-        seq = l2.new_seq(dev)
+        seq = l2.new_seq(dev, shape.get("reg", "reg3"))
         m = Model(dev)
         st = {}
         obs = []
@@ -391,6 +399,12 @@ def kernels(tier):
                        ["D_g", "SLM"], ["SLM", "D_g"], ["D_g", "DMAP", "VAR"]):
             for first in range(len(OPS)):
                 ks.append(("history", dict(device=dev, k=2 if quick else 3, first=first, prefix=prefix)))
+    # a local channel declared with its initial target, on registers with string ids and with integer ids (the first id is 0)
+    for dev in ("virt", "mock"):
+        for reg in ("reg3", "regint"):
+            for prefix in (["D_g", "D_l_init"], ["D_g", "VAR", "D_l_init"]):
+                for first in range(len(OPS)):
+                    ks.append(("history", dict(device=dev, k=1 if quick else 2, first=first, prefix=prefix, reg=reg)))
     # two EOM-capable channels (reusable device): the mode of one never depends on the other, parametrized or not
     for prefix in (["D_g", "D_g2", "EOM_on"], ["D_g", "D_g2", "VAR", "EOM_on"], ["D_g", "D_g2", "EOM_on", "VAR_EOM", "EOM_on2"],
                    ["D_g", "D_g2", "VAR", "EOM_on2", "EOM_on", "EOM_off2"]):
